@@ -158,6 +158,11 @@ def check(ctx):
         na = NumAnalysis(tele, P)
         for key, o in sorted(na.obligations.items()):
             ctx.ob("b.decoder", "tele|%s|%s" % (o["kind"], key[1]), o["ok"] is True, o["detail"], tele.loc(o["b"]))
+    # the byte count the decoder reports for an accepted telegram is what the receive helpers drop: it must lie in 1..=len(input)
+    # (C10 a.length) and be the total length of the frame format (reader table of C09 b.formats)
+    rule.import_clauses(ctx, "C10", lambda s_: C10.check_totality(s_, P), clauses=("a.length",), as_clause="b.decoder")
+    from rules import C09
+    rule.import_clauses(ctx, "C09", lambda s_: C09.check_frames(s_, P), clauses=("b.formats",), as_clause="b.decoder")
     # poll_pending_received_bytes drops nothing
     pf = ctx.need_fn(CR, "phy::ProfibusPhy::poll_pending_received_bytes::{closure#0}")
     if pf is not None:
